@@ -31,6 +31,7 @@ BASE_CFG = {
     "shape_prob": 0.4,
     "reuse_bias": True,
     "diffname_prob": 0.5,
+    "drop_join_key_prob": 0.6,
     "narrowing_tails": True,
 }
 
